@@ -8,7 +8,7 @@ V = os.path.dirname(os.path.dirname(os.path.abspath(__file__)))
 CLAIMED = {
  "C03": ("model_checking",
   "TLA+ denotational spec (CueLattice.tla) checked by TLC; every TLC state replayed into the real evaluator",
-  "CueLattice.tla defines Sat(atom, constraint) from the language spec; TLC enumerates every multiset of <=3 (quick) / <=4 (thorough) constraints over an 87-constraint alphabet dense around the bound constants, checks the model's own theorems (incremental = declarative denotation, order independence, monotonicity) and dumps every state; each state is rendered as CUE, evaluated alone and unified with each of 70 atoms in two textual orders and compared with the spec's denotation. Exhaustive for the bounded alphabet; nothing is claimed for numbers beyond TLC's integer range.",
+  "CueLattice.tla defines Sat(atom, constraint) from the language spec; TLC enumerates every multiset of <=3 (quick) / <=4 (thorough) constraints over a 102-constraint alphabet dense around the bound constants (incl. 10, 100, -100), checks the model's own theorems (incremental = declarative denotation, order independence, monotonicity) and dumps every state; each state is rendered as CUE, evaluated alone and unified with each of 74 atoms (four floats spelled with an exponent: 5e2, -5e2, 1e3, 1e5) in two textual orders and compared with the spec's denotation. Exhaustive for the bounded alphabet; nothing is claimed for numbers beyond TLC's integer range.",
   "trusted: TLC, the Sat transcription of the spec text, the harness renderer/projection (guarded by a per-run canary that corrupts the expected denotation and must be rejected)",
   "DESIGN.md §3 C03"),
  "C16": ("model_checking",
@@ -38,8 +38,8 @@ CLAIMED = {
   "DESIGN.md §3 C17"),
  "C04": ("model_checking",
   "TLA+ executable model of the spec's value/default-pair rules (CueDisj.tla: U0-U2, D0-D2, M0-M1, elimination of failed marked disjuncts), checked by TLC; every TLC state replayed into the real evaluator",
-  "CueDisj.tla computes for every expression D1 & D2 (& D3) of disjunctions over 10 leaves (atoms, types, a bound, open structs) with every pattern of top-level marks the value/default pair, its resolution (unique value / ambiguous / bottom), and the same for the expression unified with each of 8 concrete probes; TLC checks commutativity/rotation, idempotence on atoms and D within V. All expressions with two operands of <= 2 alternatives are enumerated exhaustively (168 511 states), three operands and up to 3 alternatives as a seeded sample. Each state is evaluated by the real evaluator: bottom iff no disjunct survives, an ambiguous choice must be an incomplete error and never a silently chosen value, a unique concrete resolution must be that value. Outcomes on which pairwise readings of the rules disagree, or with more than two marked operands (where the spec's elimination sentence is admittedly unfinished), are counted and left out.",
-  "trusted: TLC, the transcription of the rules, the renderer; canaries (flipped expectation) must be noticed. Nested marks are outside (as the property states).",
+  "CueDisj.tla computes for every expression D1 & D2 (& D3) of disjunctions over 10 leaves (atoms, types, a bound, open structs) with every pattern of top-level marks the value/default pair, its resolution (unique value / ambiguous / bottom), and the same for the expression unified with each of 8 concrete probes; TLC checks commutativity/rotation, idempotence on atoms and D within V. All expressions with two operands of <= 2 alternatives are enumerated exhaustively (168 511 states), three operands and up to 3 alternatives as a seeded (hash-selected, reproducible) sample plus directed disjunctions; three-alternative disjunctions are also written with nested parentheses where D0-D2 make that equivalent to the flat form. Each state is evaluated by the real evaluator: bottom iff no disjunct survives, an ambiguous choice must be an incomplete error and never a silently chosen value, a unique concrete resolution must be that value. Outcomes on which pairwise readings of the rules disagree, or with more than two marked operands (where the spec's elimination sentence is admittedly unfinished), are counted and left out.",
+  "trusted: TLC, the transcription of the rules, the renderer; canaries (flipped expectation) must be noticed. Two genuine divergences are known findings: nested spellings (a family, keyed coarsely: they document the divergence but cannot flag a new member) and an operand-order dependence with three operands (recognised by re-evaluating the other orders).",
   "DESIGN.md §3 C04"),
  "C05": ("model_checking",
   "TLA+ membership checker for field constraints and closedness (CueStruct.tla: Admits over schema syntax trees), checked by TLC; every (schemas, data) state replayed into the real evaluator",
